@@ -13,15 +13,32 @@ VARIANTS = [("gzip", 0, 1), ("gzip", BIG, 9), ("gzip", 150, 1), ("zstd", 0, 0), 
 CHUNK = 4
 
 
-def f(name, size):
-    return {"name": name, "type": "reg", "link": "", "size": size}
+META_A = {"mode": 0o755, "uid": 0, "gid": 0, "mtime": 0}
+META_B = {"mode": 0o700, "uid": 1000, "gid": 1000, "mtime": 1700000000}
+
+
+def f(name, size, meta=META_A):
+    return {"name": name, "type": "reg", "link": "", "size": size, "meta": meta}
+
+
+def d(name, meta=META_A):
+    return {"name": name, "type": "dir", "link": "", "size": 0, "meta": meta}
+
+
+SPECIAL_NAMES = ("sub/stargz.index.json", "sub/.prefetch.landmark", "sub/.no.prefetch.landmark", "stargz.index.json")
+
+
+def is_special(tar):
+    """the special families: a repeated name whose entries differ in metadata, or a file named like a reserved entry"""
+    return any(e["meta"] != META_A or e["name"] in SPECIAL_NAMES for e in tar)
 
 
 # a few inputs beyond the TLC bound (5 entries; sizes 0, 1, chunk-1, chunk, chunk+1, 2*chunk+1; a directory; a duplicate)
 FIXED = [
-    [f("f1", 9), {"name": "f2", "type": "dir", "link": "", "size": 0}, f("f3", 0), f("f4", 4), f("f5", 5)],
+    [f("f1", 9), d("f2"), f("f3", 0), f("f4", 4), f("f5", 5)],
     [f("f1", 3), f("f2", 1), f("f3", 9), f("f4", 0), f("f5", 9)],
-    [f("f1", 5), f("f2", 4), f("f1", 3), f("f4", 9), f("f5", 1)],
+    [f("f1", 5), f("f2", 4), f("f1", 3, META_B), f("f4", 9), f("f5", 1)],
+    [d("f1"), f("f2", 5), d("f1", META_B), f("sub/stargz.index.json", 3), f("sub/.prefetch.landmark", 3)],
     [f("f1", 0), f("f2", 0), f("f3", 0), f("f4", 0), f("f5", 0)],
 ]
 
@@ -32,9 +49,9 @@ def event_line(tlc_out):
 
 
 def brief(ev):
-    d = dict(ev)
-    d["input"] = [[e["name"], e["type"], e["size"]] for e in ev["input"]]
-    d["order"] = [[e["name"], e["type"], e["size"]] for e in ev["order"]]
+    d = dict(ev)   # noqa
+    d["input"] = [[e["name"], e["type"], e["size"], "%o" % e["meta"]["mode"]] for e in ev["input"]]
+    d["order"] = [[e["name"], e["type"], e["size"], "%o" % e["meta"]["mode"]] for e in ev["order"]]
     return d
 
 
@@ -57,7 +74,7 @@ def validate(run, events, what):
         ev = events[n - 1] if 0 < n <= len(events) else events[0]
         run.violation("monitor:%s:%s" % (viol, where(ev)),
                       "%s is false on the blob the real builder produced for event %d (%s; input %s)" % (
-                          viol, n, where(ev), [[e["name"], e["size"]] for e in ev["input"]]), {"formula": viol, "event": brief(ev)})
+                          viol, n, where(ev), brief(ev)["input"]), {"formula": viol, "event": brief(ev)})
         log("[trace] %-10s %d blobs: monitor %s at event %d" % (what, len(events), viol, n))
         return 0
     res = run.tlc_trace("WriterTrace", "WriterTrace.cfg", path, timeout=2400)
@@ -101,7 +118,9 @@ def check(run):
             ("Writer_mc_minchunk.cfg", "InnerFromStreamStart", ["TocAddressesRightBytes", "OffsetsUniquePerStreamStart"]),
             ("Writer_mc_build.cfg", "RebaseChunks", ["TocAddressesRightBytes", "OffsetsUniquePerStreamStart"]),
             ("Writer_mc_build.cfg", "KeepChunkSize", ["TocAddressesRightBytes", "ChunksTileFile"]),
-            ("Writer_mc_build.cfg", "DivideKeepsAll", ["EntriesPreserved"])):
+            ("Writer_mc_build.cfg", "DivideKeepsAll", ["EntriesPreserved"]),
+            ("Writer_mc_build.cfg", "KeepLastDup", ["EntriesPreserved"]),
+            ("Writer_mc_build.cfg", "ReservedByFullName", ["EntriesPreserved"])):
         ov = dict(small) if cfg == "Writer_mc_build.cfg" and guard != "DivideKeepsAll" else {}
         ov[guard] = "FALSE"
         run.tlc_negctl("Writer", cfg, ov, expect, workers=4, timeout=900)
@@ -121,23 +140,33 @@ def check(run):
             if mode != "build" and len(set(names)) != len(names):
                 continue
             gen.append({"input": t, "mode": mode, "workers": w})
-    budget = 6000 if thorough else 1100
+    budget = 8000 if thorough else 3000
     allc = []
     for g in gen:
-        tar = [{"name": e["name"], "type": e["type"], "link": e["link"], "size": e["size"]} for e in g["input"]]
-        for (scheme, minc, lvl) in VARIANTS:
+        tar = [{"name": e["name"], "type": e["type"], "link": e["link"], "size": e["size"], "meta": e["meta"]} for e in g["input"]]
+        for vi, (scheme, minc, lvl) in enumerate(VARIANTS):
             allc.append({"tar": tar, "mode": g["mode"], "scheme": scheme, "chunk": CHUNK, "minchunk": minc, "workers": g["workers"],
-                         "level": lvl, "gzinput": False})
-    small_cases = [c for c in allc if len(c["tar"]) <= 1]
-    rest = [c for c in allc if len(c["tar"]) > 1]
+                         "level": lvl, "gzinput": False, "vi": vi})
+    # deterministic part, replayed in EVERY run: all inputs of <= 1 entry under every variant, and the special families
+    # (repeated names with other metadata; files named like reserved entries) with <= 2 entries (sizes 0 / 5 only, to keep
+    # the list short) in every mode under gzip/min-chunk 0 and zstd/min-chunk 150
+    def fixed_part(c):
+        if len(c["tar"]) <= 1:
+            return True
+        return (is_special(c["tar"]) and len(c["tar"]) <= 2 and c["vi"] in (0, 4)
+                and all(e["size"] in (0, 3, 5) for e in c["tar"]))
+    small_cases = [c for c in allc if fixed_part(c)]
+    rest = [c for c in allc if not fixed_part(c)]
     run.rng.shuffle(rest)
     cases = small_cases + rest[:max(0, budget - len(small_cases))]
+    nspecial = sum(1 for c in small_cases if is_special(c["tar"]))
     for c in cases:
-        c["gzinput"] = run.rng.random() < 0.15
+        c["gzinput"] = (not fixed_part(c)) and run.rng.random() < 0.15
     out = os.path.join(run.scratch, "writer_events.ndjson")
     inp = os.path.join(run.scratch, "writer_in.json")
     write_json(inp, {"cases": cases, "out": out})
-    log("[replay] %d of %d (input, mode, workers, variant) combinations" % (len(cases), len(allc)))
+    log("[replay] %d of %d (input, mode, workers, variant) combinations; %d fixed (%d of the special families), the rest drawn by the seed" % (
+        len(cases), len(allc), len(small_cases), nspecial))
     rc, gout = run.go_driver("estargz", "./", OVERLAY, "^TestVerifWriterReplay$", env={"VERIF_IN": inp}, race=thorough, timeout=3000)
     if rc != 0:
         run.violation("datarace:estargz.Build", "data race reported in the estargz builder under the driver", {"log": gout[-6000:]})
@@ -151,6 +180,10 @@ def check(run):
             # the independent reader could not read the blob per docs/estargz.md: "valid stream of its compression format ... parsed by the documented rules"
             run.violation("unreadable:%s:%s" % (where(e), e["errtext"][:60].replace(" ", "_")),
                           "the blob cannot be read by the documented rules: " + e["errtext"], {"event": brief(e)})
+        elif "existing TOC JSON is not allowed" in e["errtext"] and not any(x["name"] == "stargz.index.json" for x in e["input"]):
+            # AppendTarLossLess refuses a layer that has no TOC entry of its own: no blob at all for a valid input (LosslessIdentity)
+            run.violation("refused:%s:existing-TOC-JSON" % where(e), "AppendTarLossLess refused an input without a stargz.index.json entry in its root: "
+                          + e["errtext"], {"event": brief(e)})
         else:
             run.inconclusive.append("builder returned an error for a valid input (%s): %s" % (where(e), e["errtext"]))
     events = [e for e in events if not e["err"]]
@@ -161,7 +194,7 @@ def check(run):
     run.cov["traces_validated_against_impl"] += ok
     nontriv = [e for e in events if any(t["type"] == "chunk" or t["inner"] > 0 for t in e["toc"])]
     run.cov["distinct_nontrivial"] += len({digest([e["input"], e["opt"], e["scheme"], e["minchunk"]]) for e in nontriv})
-    run.cov["stages"].append({"stage": "replay", "blobs": len(events), "chunked_or_shared": len(nontriv),
+    run.cov["stages"].append({"stage": "replay", "blobs": len(events), "fixed_every_run": len(small_cases), "special_family_fixed": nspecial, "chunked_or_shared": len(nontriv),
                               "by_mode": {m: sum(1 for e in events if e["opt"]["mode"] == m) for m in ("build", "writer", "lossless")},
                               "by_scheme": {s: sum(1 for e in events if e["scheme"] == s) for s in ("gzip", "zstd", "external")}})
     run.add_samples([brief(e) for e in nontriv[:1]], limit=1)
